@@ -30,7 +30,9 @@ def instrumented(ctx, rels=("client.go", "server.go")):
     return extra, labels
 
 
-def run(ctx):
+def gates(ctx, name="C02"):
+    """the gate-forced interleavings of caller / responder / cancellation on both endpoints, each followed by a further call
+    which must get its own reply; replayed through the Rendezvous models"""
     import props.C17 as c17
     extra, labels = instrumented(ctx)
     need = ["Server.Invoke#Lock#1", "Server.Invoke#Unlock#1", "Server.Invoke#select#1", "Server.Invoke#Lock#3", "Server.Invoke#Unlock#3",
@@ -38,11 +40,24 @@ def run(ctx):
     need += ["ClientConn.Invoke#Lock#1", "ClientConn.Invoke#Unlock#1", "ClientConn.Invoke#select#1", "ClientConn.Invoke#Lock#2", "ClientConn.Invoke#Unlock#2",
              "ClientConn.handleMessageResponse#Lock#1", "ClientConn.handleMessageResponse#Unlock#1", "ClientConn.registerMethodCall#select#1"]
     have = labels.get("server.go", []) + labels.get("client.go", [])
-    ctx.oblige(all(l in have for l in need), "C02_gate_labels", "(synchronisation points of Server.Invoke / handleMessageResponse: missing %s)" % [l for l in need if l not in have])
+    ctx.oblige(all(l in have for l in need), name + "_gate_labels", "(synchronisation points of Server.Invoke / handleMessageResponse: missing %s)" % [l for l in need if l not in have])
     rc, out, recs = c17.go_scaled(ctx, "", "^TestVerifC02$", FILES, "wsrpc", None, extra, 1500 if ctx.thorough else 400)
     ctx.records += recs
     if rc != 0 or not recs:
-        ctx.fail("harness:C02", "the C02 harness did not run to completion on this tree: " + out[-1500:], kind="correspondence", no_input=True)
+        ctx.fail("harness:" + name, "the " + name + " harness did not run to completion on this tree: " + out[-1500:], kind="correspondence", no_input=True)
+        return None
+    if name != "C02":
+        for r in recs:
+            if r.get("fail"):
+                ctx.fail(r["fail"].split("/")[0], "call monitor '%s' failed: %s" % (r["fail"], str(r.get("info"))[:600]), case=r)
+        hdr = "From Coq Require Import List NArith ZArith String.\nImport ListNotations.\nOpen Scope nat_scope.\nModule C := WV.Model.RendezvousC."
+        ctx.model("Run.RunC02", recs, header=hdr)
+    return recs
+
+
+def run(ctx):
+    recs = gates(ctx)
+    if recs is None:
         return
     # transport level: a Write waiting for a stalled write pump ends with its context (both transports)
     rc3, out3, recs3 = ctx.go("internal/transport", "^TestVerifC02Transport$", ["transport/gc_c02_test.go"], "transport", timeout=240)
